@@ -14,9 +14,10 @@ PROPS = {
     'C09': ['DISPATCH', 'ACDUAL', 'MEMO', 'HASHEQ', 'ORDTOTAL'],
     'C10': ['UNIONCONTRIB', 'PRODUCT', 'PAIRFIELD', 'FINCHK', 'WORKLIST', 'COW'],
     'C11': ['COW', 'CLEARALL', 'HASHCONS'],
+    'C13': ['TEXT'],
     'C12': ['COW', 'HASHCONS', 'ITER', 'CLEARALL'],
     'C14': ['KIND', 'COW'],
-    'C17': ['CANON'],
+    'C17': ['CANON', 'TEXT'],
     'C18': ['REFCNT'],
     'C19': ['KIND', 'SIMMAP', 'DISPATCH'],
     'C20': ['INIT', 'FALLOFF', 'PAIRFIELD', 'COPYALL', 'FRAMERESET'],
@@ -43,6 +44,7 @@ FILTER = {
     ('C08', 'UNIONCONTRIB'): r'bdd_', ('C08', 'PRODUCT'): r'bdd_', ('C08', 'WORKLIST'): r'bdd_', ('C08', 'INIT'): r'bdd_|mtbdd|symbolic',
     ('C10', 'UNIONCONTRIB'): r'explicit_finite', ('C10', 'PRODUCT'): r'explicit_finite', ('C10', 'WORKLIST'): r'explicit_finite',
     ('C10', 'COW'): r'explicit_finite', ('C10', 'FINCHK'): r'explicit_finite',
+    ('C17', 'TEXT'): r'sym_var_asgn', ('C13', 'TEXT'): r'timbuk|loadable|convert|aut_core|sym_var',
     ('C12', 'COW'): r'explicit_tree',
     ('C14', 'COW'): r'explicit_tree', ('C14', 'KIND'): r'explicit_tree|explicit_finite|bdd_',
     ('C19', 'DISPATCH'): r'aut_base\.hh|explicit_tree_incl\.cc', ('C19', 'KIND'): r'explicit_tree',
